@@ -400,6 +400,12 @@ SEQUENCES = {
     "clip-save-clear-save": ["S:clip", "save", "S:clear", "save"],
     "clip-save-removebase-save": ["S:clip", "save", "S:removebase", "save"],
     "two-save-flag-save": ["S:two", "save", "A:flag", "save"],
+    # nested groups, the outer one looked at (bbox / repr / composite) while still empty, then filled
+    "nest-observe-fill-save": ["S:nest", "O:observe", "S:into-inner", "save"],
+    "nest-save-observe-fill-save": ["S:nest", "save", "O:observe", "S:into-inner", "save"],
+    "nest-observe-save-fill-save": ["S:nest", "O:observe", "save", "S:into-inner", "save"],
+    "nest-observe-fill-save-fill-save": ["S:nest", "O:observe", "S:into-inner", "save", "O:observe", "S:into-outer", "save"],
+    "nest3-observe-fill-save": ["S:nest3", "O:observe", "S:into-innermost", "save"],
 }
 
 
@@ -430,6 +436,25 @@ def apply_step(psd, c, step, dm):
         psd[-1].clipping_layer = True
         psd.append(pix(37, 2, 0, w - 2, h - 1))
         psd[-1].clipping_layer = True
+    elif step in ("S:nest", "S:nest3"):
+        outer, inner = Group.new("outer"), Group.new("inner")
+        psd.append(outer)
+        outer.append(inner)
+        if step == "S:nest3":
+            inner.append(Group.new("innermost"))
+    elif step == "O:observe":
+        # reading the cached geometry of the (still empty) containers, as a viewer or a test would
+        for g in [psd[-1]] + list(psd[-1].descendants()):
+            if g.is_group():
+                g.bbox, repr(g), g.size
+        psd.bbox
+        psd.composite(force=True) if dm != "CMYK" else None
+    elif step == "S:into-inner":
+        psd[-1][0].append(pix(41, 1, 1, w - 2, h - 2))
+    elif step == "S:into-innermost":
+        psd[-1][0][0].append(pix(42, 0, 1, w - 1, h - 2))
+    elif step == "S:into-outer":
+        psd[-1].append(pix(43, 2, 0, w - 3, h - 1))
     elif step == "S:remove":
         psd.remove(psd[-1])
     elif step == "S:pop":
@@ -540,6 +565,44 @@ def oracle_sequence(ck, c, bits=None):
     return fields, outs
 
 
+def all_fixtures(ck):
+    import glob
+
+    root = os.path.join(core.REPO, "tests", "psd_files")
+    out = []
+    for pth in sorted(glob.glob(root + "/*.ps?") + glob.glob(root + "/*/*.ps?")):
+        rel = os.path.relpath(pth, root)
+        if ck.tier == "thorough" or os.path.getsize(pth) <= 300000 or rel == "artboard.psd":
+            out.append(rel)
+    return out
+
+
+def oracle_open_save(ck, rel):
+    """open a fixture, save it with NO edit: the object must not be marked as edited and the image-data
+    section of the new file must be the original one, byte for byte (any colour mode, any depth)"""
+    from psd_tools import PSDImage
+
+    c = dict(fixture=rel, history="open-save")
+    try:
+        blob0 = open(fixture_path(rel), "rb").read()
+        psd = PSDImage.open(io.BytesIO(blob0))
+    except Exception as e:
+        ck.count("fixture does not open:" + type(e).__name__)
+        return
+    ck.count("open-save fixtures")
+    if psd._updated_layers:
+        ck.fail("dirty-after-open", c, True, False, dirty=False)
+    try:
+        blob = pc.save_bytes(psd)
+    except Exception as e:
+        ck.fail("save-raises", c, repr(e), "file written", exc=type(e).__name__, dirty=False)
+        return
+    a, b = pc.read_image_data_section(blob0).raw, pc.read_image_data_section(blob).raw
+    if a != b:
+        ck.fail("clean-bytes-changed", c, dict(len=len(b), head=list(b[:12])), dict(len=len(a), head=list(a[:12])), dirty=False)
+    ck.nontriv(("open-save", rel))
+
+
 def session_lit(f):
     steps = "[" + ";".join("(%d, (%s, %s, %s), (%s, %d))" % (k, pc.planes_lit(s_), pc.planes_lit(w_), core.zlist(a_), pc.coq_bool(t_), i_)
                            for (k, s_, w_, a_, t_, i_) in f[8]) + "]"
@@ -635,7 +698,10 @@ def _failures_of(c):
     probe.count = lambda *a, **k: None
     probe.fail = lambda kind, inp, observed, expected, **extra: probe.failures.append(
         dict(kind=kind, input=inp, observed=observed, expected=expected, **extra))
-    if "sequence" in c:
+    probe.nontriv = lambda *a, **k: None
+    if c.get("history") == "open-save":
+        oracle_open_save(probe, c["fixture"])
+    elif "sequence" in c:
         oracle_sequence(probe, c, pc.cfg_bits(st()))
     else:
         oracle(probe, c)
@@ -681,6 +747,8 @@ def run():
                 corr_in.append(c)
     ck.sample({"case": cases[len(cases) // 2]})
     ck.sample({"case": cases[-3]})
+    for rel in all_fixtures(ck):
+        oracle_open_save(ck, rel)
     seqs = list(gen_sequences(ck))
     scorr, scorr_in = [], []
     for c in seqs:
